@@ -27,7 +27,7 @@ def sel(name):
     return 'env."%s"' % name
 
 
-CONTEXTS = ["plain", "plain", "func", "module_out", "module_body", "fmt_expr", "map_cb", "nested_module", "select_arm", "reduce_cb"]
+CONTEXTS = ["plain", "let_stmt", "let_stmt", "func", "module_out", "module_body", "fmt_expr", "map_cb", "nested_module", "select_arm", "reduce_cb"]
 
 
 def wrap(kind, R, tag):
@@ -35,6 +35,9 @@ def wrap(kind, R, tag):
     ident = lambda v: v
     if kind == "plain":
         return [], R, ident
+    if kind == "let_stmt":
+        # a statement of its own (several such statements read different variables one after the other)
+        return [("let", "r" + tag, R)], ("sym", "r" + tag), ident
     if kind == "func":
         return [("let", "f" + tag, ("func", ["x"], R))], ("call", ("sym", "f" + tag), [("int", 1)]), ident
     if kind == "module_out":
@@ -116,6 +119,12 @@ def run(tier, seed):
             exprs.append(("u" if k == unset else "v%d" % j, e))
             want_of.append((("u" if k == unset else "v%d" % j), k, w))
             ctx_stats[ctxk] = ctx_stats.get(ctxk, 0) + 1
+        if len(read) >= 2:
+            # two different variables read in one expression
+            k1, k2 = read[0], read[1]
+            exprs.append(("cat", ("bin", "Add", ("bin", "DOT", ("sym", "env"), key(k1)), ("bin", "DOT", ("sym", "env"), key(k2)))))
+            want_of.append(("cat", k1, (lambda v, _o=envd[k2]: v + _o)))
+            ctx_stats["two_in_one_expression"] = ctx_stats.get("two_in_one_expression", 0) + 1
         src = "".join(P.stmt_text(x) + "\n" for x in pre)
         src += "out json {%s};\n" % ", ".join(["%s = %s" % (n, P.to_text(e)) for n, e in exprs] + ["f = {env = 5}.env"])
         d = os.path.join(root, "c%d" % i)
